@@ -10,7 +10,7 @@ refresh = '--refresh' in args
 allc = '--all-checks' in args or refresh
 want = set(a for a in args if not a.startswith('--'))
 bad = []
-for d in sorted(glob.glob("/verif/seeded/[STUVWX]-*")):
+for d in sorted(glob.glob("/verif/seeded/[STUVWXY]-*")):
     mp = os.path.join(d, 'meta.json')
     m = json.load(open(mp))
     if want and m['id'] not in want: continue
